@@ -6,7 +6,8 @@ import random
 class Prop(PoolProp):
     pid = "C03"
     focus = "calls"
-    real_scenarios = ("factory_quota_two_calls", "factory_quota_bounded")
+    real_scenarios_quick = ("factory_quota_two_calls",)
+    real_scenarios = ("factory_quota_two_calls", "factory_quota_bounded", "d19_late_retirement")
     p_factory = 0.6
     n_calls = [2, 2, 3, 4]
     rule = ("call histories of 2-4 calls on one pool (different lengths incl. empty, chunk sizes, ordered/unordered), factory "
@@ -26,4 +27,4 @@ class Prop(PoolProp):
                 (Cfg(n_workers=2, calls=[(3, 1, True), (0, 1, True), (2, 1, False)]), ("roles", "CWRF", "never", True),
                  chooser_roles("CWRF", "never", True), "D15: flags of the previous call"),
                 (Cfg(n_workers=2, factory=True, quota=1, work_cap=1, calls=[(2, 1, True)]), ("roles", "CRFW", "after_put", True),
-                 chooser_roles("CRFW", "after_put", True), "D19: exit blocks on its stop orders (known finding)")]
+                 chooser_roles("CRFW", "after_put", True), "D19 (repaired): unreplaced retirements at the end of the last call, work-queue bound below the worker count")]
